@@ -5,6 +5,7 @@ linear forms over *symbols* whose current interval sets form the path's *cell*; 
 flow on comparisons with constants partitions the cell (trace partitioning), everything
 else is an opaque atom.  Bodies are interpreted abstractly, never executed.
 """
+import os
 import re
 from . import mir
 
@@ -94,7 +95,8 @@ def ty_range(tys):
 
 
 def ty_from_str(s):
-    s = s.strip()
+    from .mir import canon as _canon
+    s = _canon(s.strip())
     if INT_RE.match(s):
         return {'s': s, 'k': 'int:' + s}
     if s in ('bool', 'char', 'str'):
@@ -446,13 +448,30 @@ def fresh(prefix):
     return '%s#%d' % (prefix, _counter[0])
 
 
+MEM_BUDGET_GB = int(os.environ.get('MCV_MEM_BUDGET_GB', '10'))
+
+
+def _rss_gb():
+    try:
+        with open('/proc/self/statm') as fh:
+            return int(fh.read().split()[1]) * 4096 / (1 << 30)
+    except Exception:
+        return 0
+
+
 class Machine:
     def __init__(self, prog, prims=None, overrides=None, max_configs=4000, max_steps=200000, max_depth=24):
         self.prog = prog
+        from .mir import canon as _canon
         self.prims = prims or {}
+        if any(_canon(_k) != _k for _k in self.prims):
+            self.prims = dict(self.prims)
+            for _k in list(self.prims):
+                self.prims.setdefault(_canon(_k), self.prims[_k])
         self.overrides = dict(overrides or {})
         for _k in list(self.overrides):
             self.overrides.setdefault(std_name(_k), self.overrides[_k])
+            self.overrides.setdefault(_canon(std_name(_k)), self.overrides[_k])
         self.max_configs = max_configs
         self.max_steps = max_steps
         self.max_depth = max_depth
@@ -1276,6 +1295,8 @@ class Machine:
                 total_steps += 1
                 if total_steps > self.max_steps:
                     raise Abort('step limit')
+                if total_steps % 4096 == 0 and _rss_gb() > MEM_BUDGET_GB:
+                    raise MemoryError('interpretation exceeded %d GB' % MEM_BUDGET_GB)
                 snap = cfg.clone()
                 try:
                     nxt = self.step(cfg)
